@@ -532,6 +532,14 @@ pub fn gen_sub(prop: &str, tier: &str, seed: u64) -> Out {
                 for da in &docs { for db in &docs {
                     let (ha, hb) = (hex(da), hex(db));
                     let pre = if r.chance(1, 2) { "-".to_string() } else { gen_prefix(&mut r, &c) };
+                    // the same pair with JSON text in either position (the text branches are separate code)
+                    let (ta, tb) = (hex(jsonb::to_string(da).as_bytes()), hex(jsonb::to_string(db).as_bytes()));
+                    if sets {
+                        for opn in ["inter", "except"] { o.push(format!("t:{} {} {} {}", opn, pre, ta, hb)); o.push(format!("t:{} {} {} {}", opn, pre, ha, tb)); o.push(format!("t:{} {} {} {}", opn, pre, ta, tb)); }
+                        o.push(format!("t:overlap {} {}", ta, tb)); o.push(format!("t:overlap {} {}", ha, tb));
+                    } else {
+                        o.push(format!("t:concat {} {} {}", pre, ta, hb)); o.push(format!("t:concat {} {} {}", pre, ha, tb)); o.push(format!("t:concat {} {} {}", pre, ta, tb));
+                    }
                     if sets {
                         for opn in ["inter", "except"] { o.push(format!("spec:{} {} {} {}", opn, pre, ha, hb)); o.push(format!("{} {} {} {}", opn, pre, ha, hb)); }
                         o.push(format!("spec:overlap {} {}", ha, hb)); o.push(format!("overlap {} {}", ha, hb));
@@ -541,6 +549,13 @@ pub fn gen_sub(prop: &str, tier: &str, seed: u64) -> Out {
                         o.push(format!("spec:objins {} {} 61 {} 1", pre, ha, hb)); o.push(format!("objins {} {} 61 {} 1", pre, ha, hb));
                     }
                 } }
+            }
+            // one-document set function on text: the same number in several encodings inside one array, edge documents
+            if sets {
+                for t in SMALL_DOCS.iter().chain(EDGE_DOCS.iter()).chain(["[1,1.0,1]", "[{\"k\":2},{\"k\":2.0}]", "[0,0.0,-0.0,0e0]", "[100,1e2,100.0]", "[[1],[1.0],[1]]", "[\"a\",\"a\",1,1]"].iter()) {
+                    let x = hex(t.as_bytes());
+                    o.push(format!("t:distinct - {}", x)); o.push(format!("t:distinct 0102 {}", x)); o.push(format!("tj 5 distinct - {}", hex(&jsonb::parse_value(t.as_bytes()).unwrap().to_vec())));
+                }
             }
             // wide containers (more than 32 members: sorts, maps and builders change strategy with size):
             // two objects with shared and private keys, arrays with repeated elements in shuffled order
@@ -1347,7 +1362,8 @@ pub fn gen_sub(prop: &str, tier: &str, seed: u64) -> Out {
                 o.push(format!("fromserde {}", crate::ops_serde::show_sj(&j)));
             }
             // JSON text input (both functions sniff): the text and the encoding of the text must convert alike
-            for t in ["{\"balance\":-0}", "[-0]", "{\"a\":[-0,-0.0,0,0.0]}", "-0", "{\"a\":{\"b\":-0}}", "{}", "[]", "{\"k\":18446744073709551615}", "{\"k\":-9223372036854775808}", "{\"k\":1e2}", "\n{\"k\":[1]}"] {
+            for t in ["{\"big\":[1,1e999]}", "42", "{\"a\":1}", "[1,-1e999]", "[7]", "1e999", "{\"k\":[]}",
+                      "{\"balance\":-0}", "[-0]", "{\"a\":[-0,-0.0,0,0.0]}", "-0", "{\"a\":{\"b\":-0}}", "{}", "[]", "{\"k\":18446744073709551615}", "{\"k\":-9223372036854775808}", "{\"k\":1e2}", "\n{\"k\":[1]}"] {
                 let x = hex(t.as_bytes());
                 for opn in ["toserde", "toserdeobj"] { o.push(format!("tjtext {} {}", opn, x)); o.push(format!("t:{} {}", opn, x)); }
             }
@@ -1370,6 +1386,12 @@ pub fn gen_sub(prop: &str, tier: &str, seed: u64) -> Out {
                 let pre: Vec<u8> = if r.chance(1, 3) { gen_value(&mut r, &c, 1).to_vec() } else { (0..n).map(|_| r.next() as u8).collect() };
                 o.push(format!("encinto {} {}", hex(&pre), t));
                 o.push(format!("spec:encinto {} {}", hex(&pre), t));
+            }
+            // LazyValue (raw JSONB and parsed text) written into a non-empty buffer
+            for t in SMALL_DOCS.iter().chain(EDGE_DOCS.iter()) {
+                let v = jsonb::parse_value(t.as_bytes()).unwrap();
+                o.push(format!("t:lazyvec {}", hex(t.as_bytes())));
+                o.push(format!("t:lazyvec {}", hex(&v.to_vec())));
             }
             // every other buffer-writing function, with non-empty prior content: the oracle
             // (spec answer) does not depend on the prefix, so agreement = "only appends"
@@ -1524,7 +1546,16 @@ fn small_scope_lines(prop: &str, tier: &str, r: &mut Rng, o: &mut Out) {
                 if prop == "C15" { o.push(format!("modes {} {}", d, ph)); } else { both(o, format!("select all - {} {}", d, ph)); o.push(format!("getpath - {} {}", d, ph)); }
             }
         },
-        "C10" => for v in d3() { let b = v.to_vec(); for k in 0..b.len() { o.push(format!("dec {}", hex(&b[..k]))); o.push(format!("fsreject {}", hex(&b[..k]))); } o.push(format!("dec {}", hex(&b))); },
+        "C10" => {
+            // text that only the fallback reads: strings whose closing quote falls inside or right after an escape,
+            // truncated and re-closed escapes, at the top level, as a value and as a key
+            for t in ["\"\\u\"", "{\"k\":\"v\\u\"}", "\"\\u{1234\"", "\"\\ud83d\\u\"", "\"\\ud83d\\u{de00\"", "\"\\u{\"", "{\"\\u\":1}", "[\"\\u00\"]", "\"\\\"", "\"a\\", "[1,\"\\uD83D\"]", "\"\\u004\"", "{\"a\":\"\\u{41\"}"] {
+                o.push(format!("t:fromslice {}", hex(t.as_bytes())));
+                for k in 1..t.len() { if t.is_char_boundary(k) { o.push(format!("t:fromslice {}", hex(&t.as_bytes()[..k]))); } }
+            }
+            for v in d3() { let b = v.to_vec(); for k in 0..b.len() { o.push(format!("dec {}", hex(&b[..k]))); o.push(format!("fsreject {}", hex(&b[..k]))); } o.push(format!("dec {}", hex(&b))); }
+        }
+        "C10x" => for v in d3() { let b = v.to_vec(); for k in 0..b.len() { o.push(format!("dec {}", hex(&b[..k]))); o.push(format!("fsreject {}", hex(&b[..k]))); } o.push(format!("dec {}", hex(&b))); },
         "C11" => for v in d3() { let t = hex(jsonb::to_string(&v.to_vec()).as_bytes()); for op in ["arrlen", "keys", "typeof", "toserde", "each", "vals", "asnum", "asstr"] { o.push(format!("tjtext {} {}", op, t)); } },
         "C14x" => {}
         "C17" => for v in d3() { o.push(format!("encinto 0102 {}", show_value(&v))); o.push(format!("spec:encinto 0102 {}", show_value(&v))); },
